@@ -4,6 +4,8 @@
 package main
 
 import (
+	"fmt"
+	"os"
 	"sort"
 
 	"verif/harness/lib"
@@ -16,6 +18,9 @@ func genHistory(rng *lib.Rand, k int, thorough bool) *History {
 	if thorough {
 		dims = append(dims, [3]int{2, 2, 2}, [3]int{3, 2, 1})
 	}
+	if chainMode {
+		dims = [][3]int{{1, 1, 1}}
+	}
 	g := Geom{BS: 16, Dim: dims[rng.Intn(len(dims))], Org: [3]int{rng.Intn(4), rng.Intn(4), rng.Intn(4)}}
 	if adversarial == "negorg" || rng.Chance(0.3) {
 		// block coordinates below zero (volumes straddling the origin)
@@ -25,6 +30,9 @@ func genHistory(rng *lib.Rand, k int, thorough bool) *History {
 	h := &History{G: g, Kind: "proofread"}
 	n := g.N()
 	nl := 5 + rng.Intn(5)
+	if chainMode {
+		nl = 6 + rng.Intn(3)
+	}
 	var labels []uint64
 	used := map[uint64]bool{}
 	for len(labels) < nl {
@@ -52,6 +60,9 @@ func genHistory(rng *lib.Rand, k int, thorough bool) *History {
 	}
 	for i, l := range labels {
 		switch {
+		case chainMode: // every label keeps voxels: its own z-slab, a random box inside it
+			p, d := rbox([3]int{0, 0, 2 * i}, [3]int{n[0], n[1], 2*i + 2}, 16)
+			h.Layout = append(h.Layout, Box{p, d, l})
 		case i < 2 || rng.Chance(0.3): // spans blocks
 			p, d := rbox([3]int{0, 0, 0}, n, 40)
 			h.Layout = append(h.Layout, Box{p, d, l})
@@ -66,11 +77,11 @@ func genHistory(rng *lib.Rand, k int, thorough bool) *History {
 			h.Layout = append(h.Layout, Box{p, d, l})
 		}
 	}
-	if rng.Chance(0.4) { // a solid block of one label
+	if !chainMode && rng.Chance(0.4) { // a solid block of one label
 		b := [3]int{rng.Intn(g.Dim[0]), rng.Intn(g.Dim[1]), rng.Intn(g.Dim[2])}
 		h.Layout = append(h.Layout, Box{[3]int{b[0] * 16, b[1] * 16, b[2] * 16}, [3]int{16, 16, 16}, labels[rng.Intn(len(labels))]})
 	}
-	if rng.Chance(0.5) { // some background carved back
+	if !chainMode && rng.Chance(0.5) { // some background carved back
 		p, d := rbox([3]int{0, 0, 0}, n, 20)
 		h.Layout = append(h.Layout, Box{p, d, 0})
 	}
@@ -558,6 +569,55 @@ func (e *Exec) genOp(rng *lib.Rand, v int, kind string, bad bool) (Op, bool) {
 			}
 		}
 		return op, true
+	case "roll":
+		// a count-preserving rewrite across a block face: the content of a box that straddles the
+		// face between two blocks is rotated along the axis through the face (mutating write over
+		// both blocks).  Every supervoxel keeps its total, its per-block counts move.
+		vol := e.curSV(v)
+		present := e.presentAt(v)
+		for try := 0; try < 12; try++ {
+			ax := rng.Intn(3)
+			if g.Dim[ax] < 2 {
+				continue
+			}
+			b0 := [3]int{rng.Intn(g.Dim[0]), rng.Intn(g.Dim[1]), rng.Intn(g.Dim[2])}
+			b0[ax] = rng.Intn(g.Dim[ax] - 1)
+			b1 := b0
+			b1[ax]++
+			if !present[b0] || !present[b1] {
+				continue
+			}
+			var p, d [3]int
+			for a := 0; a < 3; a++ {
+				if a == ax {
+					w1, w2 := 1+rng.Intn(8), 1+rng.Intn(8)
+					p[a], d[a] = (b0[a]+1)*g.BS-w1, w1+w2
+				} else {
+					d[a] = 1 + rng.Intn(10)
+					p[a] = b0[a]*g.BS + rng.Intn(g.BS-d[a]+1)
+				}
+			}
+			k := 1 + rng.Intn(d[ax]-1)
+			rolled := append([]uint64(nil), vol...)
+			for z := p[2]; z < p[2]+d[2]; z++ {
+				for y := p[1]; y < p[1]+d[1]; y++ {
+					for x := p[0]; x < p[0]+d[0]; x++ {
+						c := [3]int{x, y, z}
+						src := c
+						src[ax] = p[ax] + ((c[ax]-p[ax])-k+d[ax])%d[ax]
+						rolled[g.Idx(x, y, z)] = vol[g.Idx(src[0], src[1], src[2])]
+					}
+				}
+			}
+			boxes := g.DiffBoxes(vol, rolled)
+			if len(boxes) == 0 || len(boxes) > 60 {
+				continue
+			}
+			nb := [3]int{1, 1, 1}
+			nb[ax] = 2
+			return Op{K: "write", V: v, B0: b0, NB: nb, Boxes: boxes}, true
+		}
+		return Op{}, false
 	case "write":
 		// a block-aligned region, a few boxes inside it
 		present := e.presentAt(v)
@@ -707,6 +767,11 @@ func driveGenerated(e *Exec, rng *lib.Rand) {
 	if len(todo) == 2 && rng.Bool() {
 		todo[0], todo[1] = todo[1], todo[0]
 	}
+	if rng.Chance(0.8) {
+		// a count-preserving move across a block face, at a random place among the shapes
+		at := rng.Intn(len(todo) + 1)
+		todo = append(todo[:at], append([]string{"roll"}, todo[at:]...)...)
+	}
 	for i := 0; i < nOps; i++ {
 		if len(todo) > 0 && !forceMapping && rng.Chance(0.4) {
 			forceShape = true
@@ -807,9 +872,9 @@ func driveGenerated(e *Exec, rng *lib.Rand) {
 			}
 			continue
 		}
-		kinds := []string{"merge", "merge", "cleave", "cleave", "splitsv", "splitsv", "renumber", "write", "write", "split"}
+		kinds := []string{"merge", "merge", "cleave", "cleave", "splitsv", "splitsv", "renumber", "write", "write", "split", "roll"}
 		kind := kinds[rng.Intn(len(kinds))]
-		bad := rng.Chance(0.12) && kind != "write" && kind != "split"
+		bad := rng.Chance(0.12) && kind != "write" && kind != "split" && kind != "roll"
 		op, ok := e.genOp(rng, cur, kind, bad)
 		if !ok {
 			continue
@@ -844,6 +909,217 @@ func driveGenerated(e *Exec, rng *lib.Rand) {
 			sort.Slice(bl, func(i, j int) bool { return g.bidOf(bl[i]) < g.bidOf(bl[j]) })
 			e.step(Op{K: "ingest", V: cur, Via: "blocks", Blocks: bl[:1], Bad: "ingest-overwrite"})
 		}
+	}
+	e.step(Op{K: "observe", V: cur})
+	e.h.Ops = nil
+	for _, st := range e.steps {
+		e.h.Ops = append(e.h.Ops, st.Op)
+	}
+}
+
+// ---- dense chains of mapping operations, on a server process that is restarted ----
+
+var chainMode bool
+
+func genChainHistory(rng *lib.Rand, k int) *History {
+	chainMode = true
+	defer func() { chainMode = false }()
+	h := genHistory(rng, k, false)
+	h.Kind, h.Child, h.G.Lo = "chain", true, false
+	return h
+}
+
+// genChainOp draws a mapping operation on a body the chain touched recently (rel), so that
+// merges, cleaves, renumbers and supervoxel splits pile up on the same few bodies.
+func (e *Exec) genChainOp(rng *lib.Rand, v int, rel *[]uint64) (Op, bool) {
+	vw := e.view(v)
+	if len(vw.blist) == 0 {
+		return Op{}, false
+	}
+	var recent []uint64
+	for _, b := range *rel {
+		if _, ok := vw.bodies[b]; ok {
+			recent = append(recent, b)
+		}
+	}
+	// aliased ids: a body whose id is also the id of a live supervoxel that belongs to another
+	// body (the supervoxel was cleaved out, or the body was renumbered onto / merged around it)
+	var aliased []uint64
+	for _, b := range vw.blist {
+		if owner, live := vw.svBody[b]; live && owner != b {
+			aliased = append(aliased, b)
+		}
+	}
+	pickBody := func() uint64 {
+		if len(aliased) > 0 && rng.Chance(0.4) {
+			return aliased[rng.Intn(len(aliased))]
+		}
+		if len(recent) > 0 && rng.Chance(0.75) {
+			return recent[rng.Intn(len(recent))]
+		}
+		return vw.blist[rng.Intn(len(vw.blist))]
+	}
+	if os.Getenv("C08_DEBUG") != "" {
+		fmt.Fprintf(os.Stderr, "chain v%d bodies=%v aliased=%v\n", v, vw.bodies, aliased)
+	}
+	if len(aliased) > 0 && rng.Chance(0.5) {
+		// a rare state: put it through every kind of operation while it lasts
+		b := aliased[rng.Intn(len(aliased))]
+		var others []uint64
+		for _, c := range vw.blist {
+			if c != b {
+				others = append(others, c)
+			}
+		}
+		switch k := rng.Intn(4); {
+		case k == 1 && len(others) > 0:
+			return Op{K: "merge", V: v, Target: b, Labels: []uint64{others[rng.Intn(len(others))]}}, true
+		case k == 2 && len(others) > 0:
+			return Op{K: "merge", V: v, Target: others[rng.Intn(len(others))], Labels: []uint64{b}}, true
+		case k == 3 && len(vw.bodies[b]) >= 2:
+			return Op{K: "cleave", V: v, Target: b, Labels: pickSubset(rng, vw.bodies[b], 1, len(vw.bodies[b])-1)}, true
+		default:
+			return Op{K: "renumber", V: v, Old: b, New: e.fresh(rng)}, true
+		}
+	}
+	kinds := []string{"merge", "merge", "merge", "merge", "merge", "cleave", "cleave", "cleave", "cleave", "cleave", "renumber", "splitsv"}
+	for try := 0; try < 6; try++ {
+		switch kind := kinds[rng.Intn(len(kinds))]; kind {
+		case "merge":
+			if len(vw.blist) < 2 {
+				continue
+			}
+			a := pickBody()
+			b := a
+			for b == a {
+				b = pickBody()
+				if b == a {
+					b = vw.blist[rng.Intn(len(vw.blist))]
+				}
+			}
+			if rng.Bool() {
+				a, b = b, a
+			}
+			// mostly keep the name of a body that is called after one of its own supervoxels, as
+			// agglomerations are in practice
+			if _, bIsSv := vw.svSize[b]; bIsSv && vw.svBody[b] == b && rng.Chance(0.85) {
+				a, b = b, a
+			}
+			op := Op{K: "merge", V: v, Target: a, Labels: []uint64{b}}
+			if len(vw.blist) > 2 && rng.Chance(0.25) {
+				for _, c := range vw.blist {
+					if c != a && c != b {
+						op.Labels = sortedU64(append(op.Labels, c))
+						break
+					}
+				}
+			}
+			return op, true
+		case "cleave":
+			b := pickBody()
+			if len(vw.bodies[b]) < 2 {
+				var cands []uint64
+				for _, c := range vw.blist {
+					if len(vw.bodies[c]) >= 2 {
+						cands = append(cands, c)
+					}
+				}
+				if len(cands) == 0 {
+					continue
+				}
+				b = cands[rng.Intn(len(cands))]
+			}
+			svs := vw.bodies[b]
+			own := false
+			for _, s := range svs {
+				if s == b {
+					own = true
+				}
+			}
+			op := Op{K: "cleave", V: v, Target: b}
+			if own && rng.Chance(0.6) {
+				// the supervoxel that carries the body's own id leaves the body
+				op.Labels = []uint64{b}
+				for _, s := range svs {
+					if s != b && len(op.Labels) < len(svs)-1 && rng.Chance(0.3) {
+						op.Labels = append(op.Labels, s)
+					}
+				}
+				op.Labels = sortedU64(op.Labels)
+			} else {
+				op.Labels = pickSubset(rng, svs, 1, len(svs)-1)
+			}
+			return op, true
+		case "renumber":
+			old := pickBody()
+			if len(aliased) > 0 && rng.Chance(0.5) {
+				old = aliased[rng.Intn(len(aliased))]
+			}
+			return Op{K: "renumber", V: v, Old: old, New: e.fresh(rng)}, true
+		default:
+			if op, ok := e.genOp(rng, v, "splitsv", false); ok {
+				return op, true
+			}
+		}
+	}
+	return Op{}, false
+}
+
+// driveChain: ingest, then a long chain of mapping operations over two to four versions of
+// (mostly) one ancestry path; the server process is restarted in the middle and at the end and
+// every version is read again, leaves first; then the chain goes on at the leaf.
+func driveChain(e *Exec, rng *lib.Rand) {
+	g := e.h.G
+	e.step(Op{K: "ingest", V: 0, Via: "blocks", Blocks: allBlocks(g)})
+	cur := 0
+	var rel []uint64
+	chainStep := func() {
+		op, ok := e.genChainOp(rng, cur, &rel)
+		if !ok {
+			return
+		}
+		e.step(op)
+		st := e.steps[len(e.steps)-1]
+		if !st.Resp.OK {
+			return
+		}
+		switch op.K {
+		case "merge":
+			rel = append(rel, op.Target)
+		case "cleave":
+			rel = append(rel, op.Target)
+			rel = append(rel, st.Resp.Labels...)
+		case "renumber":
+			rel = append(rel, op.New)
+		}
+		if len(rel) > 4 {
+			rel = rel[len(rel)-4:]
+		}
+	}
+	nOps := 24 + rng.Intn(9)
+	restarted := false
+	for i := 0; i < nOps; i++ {
+		newv := i > 3 && len(e.uuids) < 4 && (rng.Chance(0.12) || (i >= nOps/3 && len(e.uuids) == 1))
+		if newv {
+			e.step(Op{K: "commit", V: cur, Quiet: true})
+			if rng.Chance(0.8) {
+				e.step(Op{K: "newversion", V: cur, Child: len(e.uuids), Quiet: true})
+			} else {
+				e.step(Op{K: "branch", V: cur, Child: len(e.uuids), Quiet: true})
+			}
+			cur = len(e.uuids) - 1
+			continue
+		}
+		if !restarted && i > nOps/2 && len(e.uuids) > 1 && rng.Chance(0.25) {
+			e.step(Op{K: "restart"})
+			restarted = true
+			continue
+		}
+		chainStep()
+	}
+	e.step(Op{K: "restart"})
+	for i, n := 0, 1+rng.Intn(3); i < n; i++ {
+		chainStep()
 	}
 	e.step(Op{K: "observe", V: cur})
 	e.h.Ops = nil
